@@ -8,6 +8,7 @@ import Distill.Model.TableClass
 import Distill.Gen.Funcs
 import Distill.Model.Embed
 import Distill.Model.Markup
+import Distill.Model.Apply
 namespace Distill.Slices
 open Distill Distill.Proto
 
@@ -157,6 +158,15 @@ def ogGateSlice : P String := do
   | some b => pure s!"ok {bstr b}"
   | none => pure "gen-untranslated"
 
+/-- `applytail hasURL url skip algoPN pnNext pnPrev pvNext pvPrev` -/
+def applyTailSlice : P String := do
+  let hu ← bool; let u ← str; let sk ← bool; let pnA ← bool
+  let a ← str; let b ← str; let c ← str; let d ← str
+  let o : Opts := { url := if hu then some u else none, skip := sk, algo := if pnA then 1 else 0 }
+  match applyModel (fun _ => ()) (fun _ => (a, b)) (fun _ => (c, d)) o with
+  | some r => pure s!"ok {hex r.url} {hex r.pag.1} {hex r.pag.2}"
+  | none => pure "gen-untranslated"
+
 def dispatch (slice : String) : Option (P String) :=
   match slice with
   | "docfilters" => some docfilters
@@ -165,6 +175,7 @@ def dispatch (slice : String) : Option (P String) :=
   | "embed" => some embedSlice
   | "markup" => some markupSlice
   | "oggate" => some ogGateSlice
+  | "applytail" => some applyTailSlice
   | _ => none
 
 def answer (line : String) : String :=
